@@ -444,7 +444,13 @@ class ConfigLoader(BaseLoader):
             ZConfig.schema.parseComponent(resource, self._loader, schema)
 
     def includeConfiguration(self, section, url, defines):
-        url = self.normalizeURL(url)
+        try:
+            url = self.normalizeURL(url)
+        except ValueError as e:
+            # urllib.parse refuses some malformed URLs (an unbalanced
+            # bracket in the host part, for one)
+            raise ZConfig.ConfigurationError(
+                "invalid URL in %include directive: " + str(e), url)
         with self.openResource(url) as r:
             self._parse_resource(section, r, defines)
 
